@@ -33,6 +33,7 @@ def main() -> int:
     ap.add_argument("--budget", type=float)
     ap.add_argument("--tier", default="quick")
     ap.add_argument("--skip-suite", action="store_true")
+    ap.add_argument("--as", dest="as_letter", help="store under /verif/seeded/<ID>_<AS> instead of <ID>_<letter>")
     args = ap.parse_args()
     pid, L = args.pid.upper(), args.letter
     src = args.src or f"/tmp/seed/{pid}/_out"
@@ -45,7 +46,7 @@ def main() -> int:
             return 2
     meta = json.load(open(meta_p)) if os.path.exists(meta_p) else {}
     wt = f"/tmp/eval_{pid}_{L}_{os.getpid()}"
-    out = {"property": pid, "variant": L, "agent_meta": meta, "verified": {}, "check": {}}
+    out = {"property": pid, "variant": args.as_letter or L, "agent_meta": meta, "verified": {}, "check": {}}
     rc, o = sh(["git", "-C", "/repo", "worktree", "add", "--detach", wt, "HEAD"])
     if rc:
         print(o)
@@ -84,7 +85,7 @@ def main() -> int:
     finally:
         sh(["git", "-C", "/repo", "worktree", "remove", "--force", wt])
         shutil.rmtree(wt, ignore_errors=True)
-    dst = os.path.join(ROOT, "seeded", f"{pid}_{L}")
+    dst = os.path.join(ROOT, "seeded", f"{pid}_{args.as_letter or L}")
     os.makedirs(dst, exist_ok=True)
     shutil.copy(patch, os.path.join(dst, "patch.diff"))
     shutil.copy(demo, os.path.join(dst, "demo.py"))
@@ -96,7 +97,7 @@ def main() -> int:
     with open(os.path.join(dst, "meta.json"), "w") as f:
         json.dump(out, f, indent=1)
     v = out["verified"]
-    print(f"{pid}_{L}: applies={v.get('applies')} suite_green={v.get('suite_green_with_change')} demo(with/without)="
+    print(f"{pid}_{args.as_letter or L}: applies={v.get('applies')} suite_green={v.get('suite_green_with_change')} demo(with/without)="
           f"{v.get('demo_exit_with_change')}/{v.get('demo_exit_without_change')} caught={out['check'].get('caught')} "
           f"keys={out['check'].get('violation_keys')} | {meta.get('summary', '')[:110]}")
     return 0
